@@ -526,9 +526,9 @@ def translate(src, name, cname, impl, sigs):
     rty = parse_type(ret, selfty) if ret else ('tuple', [])
     return ps, rty, body, selfty
 
-def gen_group(repo, group):
-    """group: {'file': out, 'fns': [ {src, name, impl, coq} ... ]} -> coq text, report"""
-    sigs = {}; bodies = []; report = []
+def gen_group(repo, group, sigs):
+    """group: {'file': out, 'fns': [ {src, name, impl, coq} ... ]} -> coq text, report; `sigs` accumulates over the groups"""
+    bodies = []; report = []
     parsed = []
     for f in group['fns']:
         src = open(os.path.join(repo, f['src'])).read()
@@ -558,7 +558,7 @@ def gen_group(repo, group):
         report.append((key, 'FAILED: ' + err))
         bodies.append('(* %s :: %s  NOT TRANSLATED: %s *)\nDefinition %s : unit := tt.\n' % (f['src'], key, err.replace('*)', '* )'), f['coq']))
     head = '(** GENERATED by tools/rs2v.py from %s -- do not edit; regenerated on every ./check run. *)\n' % ', '.join(sorted(set(f['src'] for f in group['fns'])))
-    head += 'From CB Require Import Model.SrcPrelude.\nOpen Scope Z_scope.\n\n'
+    head += 'From CB Require Import Model.SrcPrelude%s.\nOpen Scope Z_scope.\n\n' % ''.join(' Src.' + r for r in group.get('requires', []))
     return head + '\n'.join(bodies), report
 
 GROUPS = json.load(open(os.path.join(os.path.dirname(os.path.abspath(__file__)), 'rs2v_targets.json')))
@@ -567,9 +567,9 @@ def main():
     repo = sys.argv[1] if len(sys.argv) > 1 else '/repo'
     outdir = sys.argv[2] if len(sys.argv) > 2 else os.path.join(os.path.dirname(os.path.dirname(os.path.abspath(__file__))), 'coq', 'Src')
     os.makedirs(outdir, exist_ok=True)
-    allrep = {}
+    allrep = {}; sigs = {}
     for g in GROUPS:
-        text, rep = gen_group(repo, g)
+        text, rep = gen_group(repo, g, sigs)
         p = os.path.join(outdir, g['file'])
         if not os.path.exists(p) or open(p).read() != text:
             open(p, 'w').write(text)
